@@ -1,6 +1,7 @@
 package main
 
 import (
+	"errors"
 	"fmt"
 	"io"
 	gofs "io/fs"
@@ -467,6 +468,82 @@ func runC08(r *Rng, n int, replay string) {
 		}
 	}
 	runC08Nested(r, n)
+	runC08FileHelpers(n + 200)
+}
+
+// minFile exposes Read, Stat and Close of a handle and nothing else; Stat can be made to fail
+type minFile struct {
+	f        hackpadfs.File
+	statFail bool
+}
+
+func (m minFile) Read(p []byte) (int, error) { return m.f.Read(p) }
+func (m minFile) Close() error               { return m.f.Close() }
+func (m minFile) Stat() (hackpadfs.FileInfo, error) {
+	if m.statFail {
+		return nil, &hackpadfs.PathError{Op: "stat", Path: "f", Err: errInjected}
+	}
+	return m.f.Stat()
+}
+
+// runC08FileHelpers: the *File helpers on a handle that lacks the optional method: an error matching ErrNotImplemented
+// (or the error of the Stat the helper needed), never success, and the file is untouched; on the full handle the helper
+// is the method.
+func runC08FileHelpers(firstID int) {
+	type fh struct {
+		name string
+		run  func(f hackpadfs.File) error
+	}
+	helpers := []fh{
+		{"ChmodFile", func(f hackpadfs.File) error { return hackpadfs.ChmodFile(f, 0o600) }},
+		{"ChownFile", func(f hackpadfs.File) error { return hackpadfs.ChownFile(f, 0, 0) }},
+		{"ChtimesFile", func(f hackpadfs.File) error { return hackpadfs.ChtimesFile(f, time.Unix(5, 0), time.Unix(5, 0)) }},
+		{"ReadAtFile", func(f hackpadfs.File) error { _, err := hackpadfs.ReadAtFile(f, make([]byte, 2), 1); return err }},
+		{"WriteFile", func(f hackpadfs.File) error { _, err := hackpadfs.WriteFile(f, []byte{9, 9}); return err }},
+		{"WriteAtFile", func(f hackpadfs.File) error { _, err := hackpadfs.WriteAtFile(f, []byte{9}, 1); return err }},
+		{"ReadDirFile", func(f hackpadfs.File) error { _, err := hackpadfs.ReadDirFile(f, -1); return err }},
+		{"SeekFile", func(f hackpadfs.File) error { _, err := hackpadfs.SeekFile(f, 1, 0); return err }},
+		{"SyncFile", func(f hackpadfs.File) error { return hackpadfs.SyncFile(f) }},
+		{"TruncateFile", func(f hackpadfs.File) error { return hackpadfs.TruncateFile(f, 1) }},
+	}
+	id := firstID
+	for _, h := range helpers {
+		for variant := 0; variant < 2; variant++ {
+			fs := newMem()
+			_ = hackpadfs.WriteFullFile(fs, "f", []byte{1, 2, 3, 4}, 0o644)
+			before := Snapshot(fs, []string{".", "f"})
+			f, err := hackpadfs.OpenFile(fs, "f", hackpadfs.FlagReadWrite, 0)
+			if err != nil {
+				panic(err)
+			}
+			c := &Case{ID: id, Kind: "filehelper/" + h.name, Trivial: true}
+			id++
+			c.Cells = []string{"filehelper/" + h.name}
+			var herr error
+			func() {
+				defer func() {
+					if e := recover(); e != nil {
+						herr = fmt.Errorf("panic: %v", e)
+					}
+				}()
+				herr = h.run(minFile{f, variant == 1})
+			}()
+			c.Text = []string{fmt.Sprintf("%s on a handle exposing Read/Stat/Close only (Stat fails: %v) -> %v", h.name, variant == 1, herr)}
+			switch {
+			case herr == nil:
+				c.fail(c.Text[0]+": reported success for something the handle cannot do", "filehelper:"+h.name+":ok")
+			case strings.HasPrefix(herr.Error(), "panic:"):
+				c.fail(c.Text[0]+": panicked", "filehelper:"+h.name+":panic")
+			case variant == 0 && !errors.Is(herr, hackpadfs.ErrNotImplemented):
+				c.fail(c.Text[0]+": the error does not match ErrNotImplemented", "filehelper:"+h.name+":class")
+			}
+			_ = f.Close()
+			if d := snapDiffExact(before, Snapshot(fs, []string{".", "f"})); d != "" && h.name != "ChtimesFile" {
+				c.fail(c.Text[0]+": changed the file: "+d, "filehelper:"+h.name+":changed")
+			}
+			emit(c)
+		}
+	}
 }
 
 // mem.FS has no Sub of its own: hackpadfs.Sub on it builds the generic view, which exposes Open and a Mount that
